@@ -122,7 +122,7 @@ class Contract(object):
     def __init__(self, target, prop, args=None, requires=None, ensures=None, raises=None,
                  modifies=(), loops=None, params=None, assumed=False, inline=False,
                  decreases=None, ghost=None, result_type=None, note="", lemmas=(), reads_heap=True,
-                 block=None, pure_result=None, uses=(), returns=None, solver_hints=None, raises_not=None, result_name=None):
+                 block=None, pure_result=None, uses=(), returns=None, solver_hints=None, raises_not=None, result_name=None, heap_named=False):
         self.target = target
         self.prop = prop
         self.args = args or {}
@@ -147,6 +147,7 @@ class Contract(object):
         # a pure, deterministic function (no heap, no global state: its C18 frame obligation) may have its result
         # *named* by uninterpreted functions of its arguments at call sites, so that callers' contracts can refer to it
         self.result_name = result_name
+        self.heap_named = heap_named
         self.solver_hints = solver_hints or {}   # obligation-name fragment -> {"cli_s": seconds, "only": "cvc5"}
 
 
@@ -1489,6 +1490,12 @@ class Exec(object):
         S = SpecCtx(self, st, st.heap, bound)
         if c.requires is not None:
             self.oblige(st, "pre@%s.L%d" % (short, self.line(node)), c.requires(S, *ordered), "pre-at-call")
+        if q == self.c.target and self.inline_depth == 0:
+            if c.decreases is None:
+                raise Unsupported("recursive call without a decreases clause in the contract")
+            m_callee = toint(c.decreases(S, *ordered))
+            m_caller = toint(c.decreases(SpecCtx(self, st, st.heap, self.entry_args), *self.entry_args.values()))
+            self.oblige(st, "decreases.L%d" % self.line(node), z3.And(0 <= m_callee, m_callee < m_caller), "variant")
         if c.assumed:
             self.trusted.add("contract of %s assumed (not verified deductively): %s" % (q, c.note or "bounded-checked"))
         old = st.heap.copy()
@@ -1511,7 +1518,9 @@ class Exec(object):
         if c.returns is not None:
             res = c.returns(S2, *ordered)
         elif c.result_name is not None:
-            res = named_result(c, ordered)
+            res = named_result(c, ordered, st.heap if getattr(c, "heap_named", False) else None)
+            if isinstance(res, VList):
+                st.assume(res.n >= 0)
         else:
             if rt is None:
                 raise Unsupported("contract of %s has no result_type" % q)
@@ -1658,7 +1667,48 @@ class Exec(object):
             st.assume(z3.ForAll([j], z3.Implies(z3.And(0 <= j, j < lst.n), cmp_(toint(lst.get(j))))))
             return VInt(m)
         if name == "sorted":
-            raise Unsupported("sorted() outside a contract-covered helper")
+            if len(args) != 1 or set(kw) - {"key"}:
+                raise Unsupported("sorted() with these arguments")
+            lst = self.iter_list(args[0], st, node)
+            keyf = kw.get("key")
+            self.trusted.add("sorted(xs, key=f): modelled as a list s of the same length with a bijection p on the indices, "
+                             "s[i] == xs[p(i)], and f(s[i]) <= f(s[j]) for i < j (order of equal keys not modelled)")
+            et = lst.et or type_of(lst.get(z3.Int(fresh_name("probe"))))
+            if not isinstance(et, (TInt, TRef)):
+                raise Unsupported("sorted() of a list of %r" % (et,))
+            wrap = sym.wrap_of(et)
+            arr = z3.Const(fresh_name("sorted_arr"), sym.IntArr)
+            pi = z3.Function(fresh_name("sorted_perm"), IntS, IntS)
+            n = lst.n
+            res = VList(n, arr=arr, wrap=wrap, et=et)
+            i, j = z3.Int(fresh_name("si")), z3.Int(fresh_name("sj"))
+            # the key is evaluated on every element: its safety obligations for a generic element
+            g = z3.Int(fresh_name("sg"))
+            kval = (lambda v: v) if keyf is None else keyf
+            n_g = len(st.pc)
+            self.guard_eval(st, VBool(z3.And(0 <= g, g < n)), lambda: kval(lst.get(g)))
+            learned = st.pc[n_g:]
+            del st.pc[n_g:]
+            if learned:
+                # what evaluating the key told us about a generic element holds for every element
+                gt = lst.get(g).t
+                try:
+                    st.define(z3.ForAll([g], z3.And(*learned), patterns=[gt]))
+                except z3.Z3Exception:
+                    st.define(z3.ForAll([g], z3.And(*learned)))
+            n_ob = len(self.obligations)
+            n_pc = len(st.pc)
+            ki = toint(kval(res.get(i)))
+            kj = toint(kval(res.get(j)))
+            del self.obligations[n_ob:]
+            del st.pc[n_pc:]
+            st.define(z3.ForAll([i], z3.Implies(z3.And(0 <= i, i < n), z3.And(
+                0 <= pi(i), pi(i) < n, z3.Select(arr, i) == lst.get(pi(i)).t)), patterns=[z3.Select(arr, i)]))
+            st.define(z3.ForAll([i, j], z3.Implies(z3.And(0 <= i, i < n, 0 <= j, j < n, pi(i) == pi(j)), i == j),
+                                patterns=[z3.MultiPattern(pi(i), pi(j))]))
+            st.define(z3.ForAll([i, j], z3.Implies(z3.And(0 <= i, i < j, j < n), ki <= kj),
+                                patterns=[z3.MultiPattern(z3.Select(arr, i), z3.Select(arr, j))]))
+            return res
         if name in ("all", "any"):
             lst = self.iter_list(args[0], st, node)
             j = z3.Int(fresh_name("q"))
@@ -1952,9 +2002,12 @@ def _arg_terms(ordered):
     return ts
 
 
-def named_result(c, ordered):
-    """the result of a pure deterministic function, named by uninterpreted functions of its arguments"""
+def named_result(c, ordered, heap=None):
+    """the result of a pure deterministic function, named by uninterpreted functions of its arguments (and, for
+    functions that read the tree, of the shape arrays of the heap)"""
     ts = _arg_terms(ordered)
+    if heap is not None:
+        ts = list(heap._shape_args()) + ts
     sorts = [t.sort() for t in ts]
 
     def mk(ty, name):
@@ -1964,6 +2017,14 @@ def named_result(c, ordered):
         if isinstance(ty, TRec):
             return VRec("Label" if c.result_name == "py_parse_label" else "rec",
                         {k: mk(t, name + "_" + k) for k, t in ty.fields.items()})
+        if isinstance(ty, TRef):
+            f = z3.Function("%s_%s" % (c.result_name, name), *(sorts + [IntS]))
+            return VRef(f(*ts))
+        if isinstance(ty, TList) and isinstance(ty.elem, (TInt, TRef, TStr, TBool)):
+            flen = z3.Function("%s_%s_len" % (c.result_name, name), *(sorts + [IntS]))
+            fel = z3.Function("%s_%s_el" % (c.result_name, name), *(sorts + [IntS, sym.sort_of(ty.elem)]))
+            w = sym.wrap_of(ty.elem)
+            return VList(flen(*ts), get=lambda i: w(fel(*(ts + [i]))), et=ty.elem)
         raise Unsupported("result_name for type %r" % (ty,))
     return mk(c.result_type, "r")
 
